@@ -38,6 +38,9 @@ from .common import CaseResult, rat, rats, case_rng, nice
 from . import packages as pk
 
 PID = 'C08'
+# second correspondence stage: the end-to-end pipeline model (Model/Pipeline.lean, Properties/E2E.lean) run against
+# convolve_model_dir -> fit -> write_parameters on every row of every listing, not only the planted model
+EXTRA_HARNESS = ['harness.e2e']
 RULE = ('cases = (package of 2-6 models in per-file or cube format, 6-20 wavelengths in either order, 1 aperture '
         '(distance-independent) or 3-5 apertures (distance-dependent), 3-5 model-identifying parameter columns, '
         'parameter table permuted and file names decoupled in the per-file format, where every model may also have its own '
